@@ -3,7 +3,7 @@
 From Coq Require Import String List Bool Arith NArith Lia.
 Import ListNotations.
 Require Import Kinds Automaton AutoFacts PyStr Line Matcher MatcherFacts Builder Pipeline PipelineFacts Table TableFacts Dialects
-               Delivery DeliveryInst Machine MachineEq.
+               Delivery DeliveryInst Machine MachineEq MachineC MachineCEq.
 
 (* no #EOF test of the table is guarded by a look-ahead *)
 Definition eof_unguarded (y : test) : bool :=
@@ -31,3 +31,21 @@ Qed.
 
 Theorem source_machine m b src : wf_ms m -> pm_rel (parse_tokens true (scan src) m b) (machine_source m b src).
 Proof. intros W. apply pipeline_machine; [apply scan_noeof_from | exact W]. Qed.
+
+(* ---- error-collecting mode (the default of Parser.parse) ---- *)
+Definition machine_collecting_tokens (toks : list token) (m : mstate) (b : bstate) :=
+  c_parse (pipeline_params Table.table) toks (reset_matcher dialects m) (reset_builder b).
+Definition machine_collecting_source (m : mstate) (b : bstate) (src : str) := machine_collecting_tokens (scan src) m b.
+
+Theorem pipeline_machine_collecting toks m b : Forall (fun t => tok_is_eof t = false) toks -> wf_ms m ->
+  pc_rel (parse_tokens false toks m b) (machine_collecting_tokens toks m b).
+Proof.
+  intros Hne W. unfold parse_tokens, parse_tokens_with, machine_collecting_tokens.
+  destruct (reset_matcher_wf' m W) as [W' _].
+  exact (parse_machine_collecting (pipeline_params Table.table) _ tkey p_sk p_I p_key_pres p_eof_pres (fun n => eq_refl) p_I_pres p_sk_not_eof
+           p_S1 p_S2 la_no_eof_table eof_unguarded_table toks (reset_matcher dialects m) (reset_builder b) Hne W').
+Qed.
+
+Theorem source_machine_collecting m b src : wf_ms m ->
+  pc_rel (parse_tokens false (scan src) m b) (machine_collecting_source m b src).
+Proof. intros W. apply pipeline_machine_collecting; [apply scan_noeof_from | exact W]. Qed.
